@@ -290,6 +290,8 @@ def run(prop, seed, budget, ctx):
     if prop == "C07":
         from schema_conv import run_conv_schema
         cf, cn = run_conv_schema(rnd, seed, budget, hist, distinct, build_module); failures += cf; evaluations += cn
+        from schema_conv import run_method_schema
+        cf, cn = run_method_schema(rnd, seed, budget, hist, distinct, build_module); failures += cf; evaluations += cn
     for f in failures:
         hist[("P:" + f["why"][0].split(":")[0]) if f["kind"] == "P" else "K"] += 1
     return {"evaluations": evaluations, "distinct_nontrivial": len(distinct),
@@ -366,7 +368,7 @@ def replay(prop, case, ctx):
     from apischema.json_schema import deserialization_schema, serialization_schema, JsonSchemaVersion
     from common import proto_py
     if case.get("part") == "converted":
-        return {"type": case["py"], "conversion": case["conversion"], "mode": case["mode"], "value": case["value"], "serialized": case["serialized"],
+        return {"type": case["py"], "class": case.get("class_src"), "conversion": case["conversion"], "mode": case["mode"], "value": case["value"], "serialized": case["serialized"],
                 "schema": case["real"], "recorded": case["why"]}
     mod = build_module("\n".join(Pool.HEADER + case["src"]), "schreplay"); ns = dict(vars(mod)); tp = eval(case["py"], ns)
     out = {"type": case["py"], "recorded": case.get("why")}
